@@ -362,6 +362,57 @@ theorem so3_from_grid_to_grid_partial (dim nb na : ℕ) (D : ℕ → ℕ → ℕ
     so3FromGrid dim nb na D (so3ToGrid dim D F) i = F i :=
   so3_roundtrip dim nb na D F hdim horth i hi
 
+/-- python's `round` on `n / q`: the result is a nearest integer (`|na − n/q| ≤ ½`), and on a tie it is even -/
+theorem roundHalfEven_nearest (n q : ℕ) (hq : 0 < q) :
+    2 * (roundHalfEven n q * q) ≤ 2 * n + q ∧ 2 * n ≤ 2 * (roundHalfEven n q * q) + q ∧
+    (2 * (n % q) = q → roundHalfEven n q % 2 = 0) := by
+  have h1 := Nat.div_add_mod' n q
+  have h2 := Nat.mod_lt n hq
+  unfold roundHalfEven
+  simp only []
+  split_ifs with a b c
+  · refine ⟨by omega, by omega, fun h => by omega⟩
+  · rw [Nat.add_mul, one_mul]; refine ⟨by omega, by omega, fun h => by omega⟩
+  · refine ⟨by omega, by omega, fun _ => c⟩
+  · rw [Nat.add_mul, one_mul]; refine ⟨by omega, by omega, fun _ => by omega⟩
+example : roundHalfEven 35 2 = 18 ∧ roundHalfEven 25 2 = 12 ∧ roundHalfEven 156 10 = 16 ∧ roundHalfEven 126 10 = 13 := by
+  decide
+
+/-- the grid sizes of `SO3Grid(lmax, resolution, aspect_ratio)`: for an integer aspect ratio nothing is rounded;
+for `aspect_ratio = 1.3`, `resolution = 6` the `15.6` alpha points become `16` -/
+theorem so3Res_values (r a : ℕ) :
+    so3Res r a = (2 * r, 2 * a * r) ∧ so3ResQ 6 13 10 = (12, 16) ∧ so3ResQ 5 7 4 = (10, 18) ∧ so3ResQ 7 9 10 = (14, 13) := by
+  refine ⟨?_, by decide, by decide, by decide⟩
+  simp only [so3Res, so3ResQ, roundHalfEven, Nat.mod_one, Nat.div_one]
+  simp
+
+/-- the weights use the ROUNDED `na`: `qw = _quadrature_weights(resolution) · (2 resolution)² / na²` -/
+theorem so3QwOf_eq (r p q b : ℕ) :
+    (so3QwOf r p q b : ℝ)
+      = quadratureWeight r b * ((2 * r : ℕ) : ℝ) ^ 2 / ((roundHalfEven (2 * p * r) q : ℕ) : ℝ) ^ 2 := by
+  have e : 2 * r / 2 = r := by omega
+  simp only [so3QwOf, so3Qw, so3ResQ, e, Scalar.ofNat_real]
+  push_cast; ring
+
+/-- … and that matters: "simplifying" `nb² / na²` to `1 / aspect_ratio²` changes the weights as soon as
+`2 · aspect_ratio · resolution` is not an integer (witness `aspect_ratio = 1.3`, `resolution = 1`: `na = 3`,
+`qw₀ = 1/18`, whereas `_quadrature_weights(1)[0] / 1.3² = 1/13.52`) -/
+theorem so3Qw_rounding_matters :
+    (so3QwOf 1 13 10 0 : ℝ) = 1 / 18 ∧ (quadratureWeight 1 0 : ℝ) / (13 / 10) ^ 2 ≠ 1 / 18 := by
+  have s0 : Real.sin (Real.pi / 4) = Real.sqrt 2 / 2 := Real.sin_pi_div_four
+  have hs2 : Real.sqrt 2 * Real.sqrt 2 = 2 := Real.mul_self_sqrt (by norm_num)
+  have hq : (quadratureWeight 1 0 : ℝ) = 1 / 8 := by
+    simp only [quadratureWeight, sumRange, two_real, one_real, zero_real, Scalar.ofNat_real, Scalar.sin_real,
+      Scalar.pi_real]
+    norm_num
+    rw [show 2 * (Real.sqrt 2 / 2) * (Real.sqrt 2 / 2) = (Real.sqrt 2 * Real.sqrt 2) / 2 by ring, hs2]
+    norm_num
+  refine ⟨?_, ?_⟩
+  · rw [so3QwOf_eq, hq]
+    have : roundHalfEven (2 * 13 * 1) 10 = 3 := by decide
+    rw [this]; norm_num
+  · rw [hq]; norm_num
+
 /-- `D.shape[-1] = Σ_{l ≤ lmax} (2l+1)²`, positive -/
 theorem so3Dim_pos (lmax : ℕ) : 0 < so3Dim lmax := by
   cases lmax <;> simp [so3Dim]
